@@ -34,6 +34,10 @@ pub enum Op {
     Tip { h: u32 },
     /// truncate_to_height(h), after which the environment serves chain `switch`
     Rewind { h: u32, switch: usize },
+    /// rewind_to_chain_state(chain state at the end of block h, no birthday resets): the scan queue
+    /// is rewound to h (everything above must be scanned again) while data below the pruning floor is
+    /// preserved; the environment keeps serving the same chain. Offered to the C15 exploration only.
+    RewindState { h: u32 },
     /// put_{sapling,orchard,ironwood}_subtree_roots with the roots of every shard completed on the chain
     Roots,
     /// one step of a light client: take the wallet's first suggested scan range and scan a chunk
@@ -82,6 +86,8 @@ pub struct Cfg {
     pub with_roots: bool,
     /// Offer light-client steps driven by suggest_scan_ranges.
     pub with_client: bool,
+    /// Offer rewind_to_chain_state (queue-level model only: use with the C15 oracle).
+    pub with_rewind_state: bool,
     /// Offer free-form scans of every contiguous run of segments.
     pub free_scans: bool,
     /// Offer scans of single segments (when `free_scans` is off).
@@ -227,6 +233,23 @@ pub fn apply(w: &mut Wallet, u: &Universe, m: &Model, op: &Op) -> Result<StepRes
             let mut n = m.clone();
             n.roots_put = true;
             Ok(StepResult::Done(n))
+        }
+        Op::RewindState { h } => {
+            let st = if *h + 1 == u.first { u.genesis.clone() } else { u.chains[m.chain].blocks[h].state_after.clone() };
+            let r = mc_core::catch(|| w.db.rewind_to_chain_state(st, std::collections::HashSet::new()));
+            match r {
+                Err(p) => Err(format!("panic in rewind_to_chain_state({h}): {p}")),
+                Ok(Err(e)) => Ok(StepResult::Refused(format!("{e:?}"))),
+                Ok(Ok(())) => {
+                    let mut n = m.clone();
+                    let removed: Vec<u32> = n.scanned.range(*h + 1..).copied().collect();
+                    for hh in removed {
+                        n.scanned.remove(&hh);
+                    }
+                    n.rewinds += 1;
+                    Ok(StepResult::Done(n))
+                }
+            }
         }
         Op::Client { from_end, size } => {
             let ranges = match mc_core::catch(|| w.db.suggest_scan_ranges()) {
@@ -394,6 +417,15 @@ pub fn enabled(u: &Universe, cfg: &Cfg, m: &Model) -> Vec<Op> {
         let lo = m.tip.unwrap_or(0).max(maxs.unwrap_or(0));
         if h > lo {
             ops.push(Op::Tip { h });
+        }
+    }
+    if cfg.with_rewind_state && m.rewinds < cfg.max_rewinds {
+        if let Some(maxs) = maxs {
+            for &h in &cfg.rewind_heights {
+                if h < maxs {
+                    ops.push(Op::RewindState { h });
+                }
+            }
         }
     }
     if m.rewinds < cfg.max_rewinds {
